@@ -230,6 +230,17 @@ def g_ordinary(r, mech):
         p = {"epsilon": eps, "delta": K2.g_delta(r), "sensitivity": sens}
         if mech == "Laplace":
             return Pt(mech, p, r.choice([0.0, r.uniform(-10, 10)]))
+        if sens > 0 and r.chance(0.2):
+            # OFFSET dimension: a domain [c, c + w] far from the origin relative to its width (c / w from 1 to 1e9, both
+            # signs — timestamps, large counts), w a few noise scales, value inside: where a tolerance test on the bounds
+            # (isclose) or arithmetic in the caller's frame goes wrong although the law only depends on differences
+            b = K2.lap_expected(p)
+            w = b * r.loguniform(0.5, 8.0)
+            c = w * r.loguniform(1.0, 1e9) * r.choice([1.0, -1.0])
+            lo, hi = c, c + w
+            if math.isfinite(lo) and math.isfinite(hi) and hi - lo > 0.25 * w and w > 0:
+                p["lower"], p["upper"] = lo, hi
+                return Pt(mech, p, lo + (hi - lo) * r.choice([0.5, 0.2, r.u01(), r.u01()]))
         if mech == "LaplaceBoundedDomain":
             lo, hi = K2.g_domain(r, sens, min_width_over_sens=1.0)
         else:
@@ -650,6 +661,13 @@ def direct(ctx, pt):
         if pt.mech == "Geometric" and pt.meas.get("r", 0) < 1:
             # r is read off a break-point known to 2^-53: its effect on 2r/(1-r)^2 gets the benefit of doubt
             extra = 8 * 2.3e-16 / max(1e-300, 1 - pt.meas["r"])
+        if "lower" in pt.params and pt.meas.get("prec") and pt.meas.get("scale", 0) > 0:
+            # the sampler's scale is read off outputs that live at the magnitude of the bounds: relative resolution `prec`
+            # (4 ulp(value) / noise; 1e-7 when the domain lies 1e8 scales from the origin); the moments move by at most
+            # about (1 + width/scale) times that — benefit of doubt, it only matters in the far-offset stratum
+            wfin = pt.params["upper"] - pt.params["lower"]
+            if math.isfinite(wfin):
+                extra += 20 * pt.meas["prec"] * (1 + wfin / pt.meas["scale"])
         bad = (r != r) or math.isinf(r) or not within(r, true, extra)
         if not bad:
             continue
